@@ -47,7 +47,8 @@ DEFAULT_SPEC = {
     "readthrough": 0,      # k same-strand genes that duplicate another gene's first isoform under a new gene id
     "mirror": 0,           # k antisense genes with exon coordinates identical to another gene's first isoform
     "intergenic_multi": 0, # k reads whose only usable alignments are tied multi-exon secondaries in gene-free loci
-    "deep_gene": 0,        # 1: one gene gets ~230 reads (200/20 per isoform, 3 novel, 10 truncated)
+    "deep_gene": 0,        # 1: one gene gets ~230 reads (200/20 per isoform, 3 novel, 10 truncated); 2: a dedicated six-exon gene
+                           #    with that coverage, an unannotated exon-skipping isoform with 3 reads and 10 tail-less reads that fit both
     "long_locus": 0,       # 1: extra chromosome chrL with a > 64 kb read island that IsoQuant splits at a coverage valley
     "exp_bams": None,      # per-experiment number of files (overrides n_bams)
     "novel_one_file": 0,   # reads of unannotated isoforms all go to the first file of their experiment
@@ -67,6 +68,7 @@ DEFAULT_SPEC = {
     "sq_order": 0,         # 1: the second, third ... file of an experiment lists the @SQ lines in another (rotated) order
     "bridge": 0,           # k read-through reads: last two exons of one gene + first two exons of the next gene on the chromosome
     "outside_exon": 0,     # k genes get reads (enough for a model) with an extra exon upstream of the annotated gene span
+    "mapq_mix": 0,         # 1: every third read of an isoform gets a mapping quality from the cycle 5, 20, 1, 4, 59, 10
     "group_tag": "RG",     # BAM tag that carries the group (C09: --read_group tag:<TAG>)
     "twin_chr": 0,         # 1: extra chromosome that is a copy of the first one (same coordinates and strands, own gene ids and reads)
     "novel_gene_overlap": 0,  # k unannotated transcripts inside an annotated gene's span with entirely novel (shifted) introns
@@ -197,6 +199,22 @@ def generate(spec):
         n_.isoforms = [(n_.gid + ".t1", [0, 1])]
         h.no_extra = n_.no_extra = True
         genes[0] += [h, n_]
+        layout[0] = ex[-1][1] + 1500
+    deep2 = None
+    if s["deep_gene"] >= 2:
+        # dedicated gene DG: K1 = A B C D E F (200 full-length reads), K2 = A C D F (20), unannotated N = A B C D F (3 full-length
+        # reads: built, then filtered out again by the relative coverage cut-off), 10 reads A B C D' without tail that fit K1 and N
+        pos = layout[0] + 500
+        ex = []
+        for k in range(6):
+            ex.append((pos, pos + 160 + 10 * k))
+            pos += 160 + 10 * k + 240
+        gcount += 1
+        deep2 = Gene(gene_name(s, gcount), CHR_NAMES[0], "+", ex)
+        deep2.isoforms = [(deep2.gid + ".t1", [0, 1, 2, 3, 4, 5]), (deep2.gid + ".t2", [0, 2, 3, 5])]
+        deep2.novel = [[0, 1, 2, 3, 5]]
+        deep2.no_extra = True
+        genes[0].append(deep2)
         layout[0] = ex[-1][1] + 1500
     if s["novel_locus"]:
         for ci in range(n_chr):
@@ -459,7 +477,7 @@ def generate(spec):
     allgenes = [g for cg in genes for g in cg]
     para_of = {p.paralog_of.gid: p for p in paralogs}
     deep = None
-    if s["deep_gene"]:
+    if s["deep_gene"] == 1:
         cands = [g for g in allgenes if len(g.isoforms) >= 2 and g.paralog_of is None and g.gid not in para_of
                  and not getattr(g, "no_extra", False)]
         deep = cands[0] if cands else None
@@ -477,6 +495,9 @@ def generate(spec):
         variants = [(tid, idx, s["reads_per_iso"] if not str(tid).startswith("novel:") else max(5, s["novel_cov"]),
                      str(tid).startswith("novel:")) for tid, idx in g.isoforms]
         variants += [("novel:%s:%d" % (g.gid, k), idx, s["novel_cov"], True) for k, idx in enumerate(g.novel)]
+        if g is deep2:
+            variants = [(g.isoforms[0][0], g.isoforms[0][1], 200, False), (g.isoforms[1][0], g.isoforms[1][1], 20, False),
+                        ("novel:%s:0" % g.gid, g.novel[0], 3, True)]
         if g is deep:
             variants = [(tid, idx, 200 if k == 0 else 20, False) for k, (tid, idx) in enumerate(g.isoforms)]
             variants += [("novel:%s:%d" % (g.gid, k), idx, 3, True) for k, idx in enumerate(g.novel)]
@@ -511,7 +532,10 @@ def generate(spec):
                     blocks = [(a0 + ds, b0)] + list(blocks[1:-1]) + [(a1, b1 - de)]
                 polya = bool(s["polya"]) and (k % 5 != 4)
                 rid += 1
-                recs = [mk_record(g.chrom, blocks, g.strand, polya)]
+                mq = 60
+                if s["mapq_mix"] and k % 3 == 1:
+                    mq = [5, 20, 1, 4, 59, 10][(rid // 3) % 6]
+                recs = [mk_record(g.chrom, blocks, g.strand, polya, mapq=mq)]
                 # multi-mapping counterpart
                 other = None
                 if g.gid in para_of:
@@ -525,6 +549,13 @@ def generate(spec):
                                           mapq=60, with_seq=bool(s["secondary_seq"])))
                 reads.append({"id": "r%04d" % rid, "src": tid, "gene": g.gid, "kind": kind, "records": recs})
 
+    if deep2 is not None:
+        a3, b3 = deep2.exons[3]
+        for k in range(10):
+            rid += 1
+            blocks = [deep2.exons[0], deep2.exons[1], deep2.exons[2], (a3, b3 - 30 - k)]
+            reads.append({"id": "r%04d" % rid, "src": deep2.isoforms[0][0], "gene": deep2.gid, "kind": "deep_trunc3",
+                          "records": [mk_record(deep2.chrom, blocks, "+", False)]})
     # intergenic / low mapq / supplementary
     def intergenic_block(ci):
         name, sq = chroms[ci]
@@ -991,7 +1022,7 @@ def random_spec(rng, profile="small"):
              dup_records=rng.choice([0, 0, 1]), pre_ids=rng.choice([0, 0, 1, 2]), equal_len=rng.choice([0, 0, 1]),
              chr_order=rng.choice([0, 1, 2]), gene_naming=rng.choice([0, 0, 1, 2]), group_naming=rng.choice([0, 1, 2, 3]),
              drop_chr_annotation=rng.choice([0, 0, 0, 1]), readthrough=rng.choice([0, 0, 1]), mirror=rng.choice([0, 0, 1]),
-             intergenic_multi=rng.choice([0, 0, 1, 2]), deep_gene=rng.choice([0] * 9 + [1]),
+             intergenic_multi=rng.choice([0, 0, 1, 2]), deep_gene=rng.choice([0] * 9 + [1, 2]),
              long_locus=rng.choice([0, 0, 0, 0, 1]), bam_split=rng.choice(["random", "random", "chunks", "tiny"]),
              novel_gene_overlap=rng.choice([0, 0, 1]), chr_naming=rng.choice([0, 0, 0, 1]), split_gene=rng.choice([0, 0, 1]),
              decoy_chr=rng.choice([0, 0, 1]), novel_locus=rng.choice([0, 0, 1]), twin_chr=rng.choice([0, 0, 0, 1]),
